@@ -163,6 +163,14 @@ def check_dataset(case: dict):
         single = verified[i]
         require(arr[0, pos].shape == single[0].shape and np.array_equal(arr[0, pos], single[0]) and np.array_equal(arr[1, pos], single[1]), "C17:get_batch:order",
                 f"batch position {pos} (of {len(eff)}) does not hold the images of item {i}; idxs={idxs if len(eff) <= 12 else str(eff[:12]) + '...'}")
+    if case.get("flip"):
+        # the options live in the dataset's configuration: after the caller changes them there, the same object must rasterize accordingly
+        new_opts = tuple(bool(a) != bool(b) for a, b in zip(opts, case["flip"]))
+        rds.cfg.remove_isolated_cells, rds.cfg.extend_pixels, rds.cfg.endpoints_as_open = new_opts
+        for i, it in enumerate(items):
+            got = call("C17:getitem", rds.__getitem__, i)
+            _compare("C17:getitem:after-option-change", got.numpy(), it["g"], it["sol"], new_opts)
+        rds.cfg.remove_isolated_cells, rds.cfg.extend_pixels, rds.cfg.endpoints_as_open = opts
     # and once more item by item, after the batch
     for i, it in enumerate(items):
         again = call("C17:getitem", rds.__getitem__, i).numpy()
@@ -256,6 +264,8 @@ def _dataset(draw):
     items = [{"g": it["g"], "sol": it["sol"]} for it in items]
     idxs = draw(st.one_of(st.none(), st.lists(st.integers(0, len(items) - 1), min_size=1, max_size=8)))
     case = {"n": n, "items": items, "opts": draw(_OPTS), "idxs": idxs, "omit_default": draw(st.booleans())}
+    if draw(st.booleans()):
+        case["flip"] = draw(st.lists(st.booleans(), min_size=3, max_size=3).filter(any))
     if draw(st.integers(0, 4)) == 0:
         case["long_batch"] = [draw(st.sampled_from([257, 300, 513, 1025, 129, 65])), draw(st.integers(1, 5))]
     return case
